@@ -107,3 +107,132 @@ def model_to_text(m, limit=12000):
         except Exception:
             pass
     return "\n".join(lines)[:limit]
+
+
+# ----------------------------------------------------------------------------------------------------------------------
+# second refutation pass for queries with quantifiers over Int (indices of sequences): candidate + validation
+# ----------------------------------------------------------------------------------------------------------------------
+def _expand_ints(e, cache, values):
+    """instantiate every quantifier over Int with the given values (CANDIDATE search only: not equivalence preserving)"""
+    eid = ("i", e.get_id())
+    if eid in cache:
+        return cache[eid]
+    cache.setdefault("_keep", []).append(e)
+    if z3.is_quantifier(e) and not e.is_lambda():
+        n = e.num_vars()
+        sorts = [e.var_sort(i) for i in range(n)]
+        body = _expand_ints(e.body(), cache, values)
+        if all(s == z3.IntSort() for s in sorts):
+            insts = []
+
+            def rec(i, chosen):
+                if i == n:
+                    insts.append(z3.substitute_vars(body, *reversed(chosen)))
+                    return
+                for c in values:
+                    rec(i + 1, chosen + [z3.IntVal(c)])
+
+            rec(0, [])
+            r = z3.And(*insts) if e.is_forall() else z3.Or(*insts)
+        else:
+            vs = [z3.Const(f"{e.var_name(i)}!qi{e.get_id()}", sorts[i]) for i in range(n)]
+            inst = z3.substitute_vars(body, *reversed(vs))
+            r = z3.ForAll(vs, inst) if e.is_forall() else z3.Exists(vs, inst)
+        cache[eid] = r
+        return r
+    if z3.is_app(e) and e.num_args() > 0:
+        ch = [_expand_ints(c, cache, values) for c in e.children()]
+        r = e if all(a.eq(b) for a, b in zip(ch, e.children())) else e.decl()(*ch)
+        cache[eid] = r
+        return r
+    cache[eid] = e
+    return e
+
+
+def _pin_model(m, decls):
+    """definitions that pin every uninterpreted symbol to its value in model m"""
+    out = []
+    for d in decls:
+        try:
+            interp = m[d]
+        except Exception:  # noqa: BLE001
+            interp = None
+        if interp is None:
+            continue
+        if d.arity() == 0:
+            out.append(d() == interp)
+            continue
+        args = [z3.Const(f"a{i}!pin{d.name()}", d.domain(i)) for i in range(d.arity())]
+        if isinstance(interp, z3.FuncInterp):
+            body = interp.else_value()
+            if body is None:
+                continue
+            body = z3.substitute_vars(body, *args)
+            for ent in interp.as_list()[:-1]:
+                cond = z3.And(*[a == v for a, v in zip(args, ent[:-1])])
+                body = z3.If(cond, ent[-1], body)
+        else:
+            body = z3.substitute_vars(interp, *args)
+        out.append(z3.ForAll(args, d(*args) == body))
+    return out
+
+
+def _decls_of(exprs):
+    seen, out, ids = set(), [], set()
+    stack = list(exprs)
+    while stack:
+        t = stack.pop()
+        if t.get_id() in ids:
+            continue
+        ids.add(t.get_id())
+        if z3.is_quantifier(t):
+            stack.append(t.body())
+            continue
+        if z3.is_app(t):
+            d = t.decl()
+            if d.kind() == z3.Z3_OP_UNINTERPRETED and d.name() not in seen:
+                seen.add(d.name())
+                out.append(d)
+            stack.extend(t.children())
+    return out
+
+
+def refute_with_int_candidates(text, kmax=3, timeout_s=10, int_values=(-1, 0, 1, 2)):
+    try:
+        return _refute_with_int_candidates(text, kmax, timeout_s, int_values)
+    except z3.Z3Exception as e:  # a refutation attempt that fails is "no model found", never a crash of the check
+        return None, f"int-candidate pass failed: {e}"
+
+
+def _refute_with_int_candidates(text, kmax=3, timeout_s=10, int_values=(-1, 0, 1, 2)):
+    """-> (k, model_text) or (None, reason).  Sound: a model is returned only after the ORIGINAL query (node sorts
+    enumerated, Int quantifiers untouched) has been found satisfiable with every symbol pinned to the candidate's value."""
+    last = ""
+    for k in range(1, kmax + 1):
+        try:
+            asserts = z3.parse_smt2_string(_to_enum_text(text, k))
+        except z3.Z3Exception as e:
+            return None, f"parse error: {e}"
+        c1, c2 = {}, {}
+        orig = [_expand(a, c1) for a in asserts]
+        cand = [_expand_ints(a, c2, int_values) for a in orig]
+        s = z3.Solver()
+        s.set("timeout", int(timeout_s * 1000))
+        for a in cand:
+            s.add(a)
+        r = s.check()
+        if r != z3.sat:
+            last = f"k={k}: candidate search {r}"
+            continue
+        m = s.model()
+        v = z3.Solver()
+        v.set("timeout", int(timeout_s * 1000))
+        for a in orig:
+            v.add(a)
+        for d in _pin_model(m, _decls_of(orig)):
+            v.add(d)
+        r2 = v.check()
+        if r2 == z3.sat:
+            return k, model_to_text(v.model())
+        last = f"k={k}: candidate found but not validated ({r2})"
+    return None, last
